@@ -77,7 +77,13 @@ func isoPrograms(bin bool) [][]wire.Op {
 		}
 		return ops
 	}
-	return [][]wire.Op{prog(0), prog(1), prog(2)}
+	progs := [][]wire.Op{prog(0), prog(1), prog(2)}
+	// connection 0 is a client that fills in the CAS field of its requests (legal; rend ignores
+	// it): nothing of it may reach another connection or the backend
+	for i := range progs[0] {
+		progs[0][i].CAS = 0xC0FFEE0000000000 + uint64(i)
+	}
+	return progs
 }
 
 // runIso executes the scenario. In reference mode each thread is run alone, sequentially.
